@@ -716,6 +716,24 @@ ElemAttribute::execute(StylesheetExecutionContext&  executionContext) const
 
 
 
+void
+ElemAttribute::namespacesPostConstruction(
+            StylesheetConstructionContext&  constructionContext,
+            const NamespacesHandler&        theParentHandler,
+            NamespacesHandler&              theHandler)
+{
+    // Namespace aliases apply to literal result elements only: the
+    // name of the attribute must be expanded with the namespace
+    // declarations as they are written in the stylesheet...
+    theHandler.postConstruction(
+            constructionContext,
+            false,
+            getElementName(),
+            &theParentHandler);
+}
+
+
+
 bool
 ElemAttribute::childTypeAllowed(int     xslToken) const
 {
